@@ -149,20 +149,26 @@ def verify_one(task):
     if rc != 0:
         res.update(status="infra", detail="goto-cc: " + out[-1500:], seconds=t1)
         return res
-    rc, out, t1b = _run(["goto-instrument", "--add-library", gb, gb], 120)
-    if rc != 0:
-        res.update(status="infra", detail="goto-instrument --add-library: " + out[-1500:], seconds=t1)
-        return res
-    t1 += t1b
-    cmd = ["goto-instrument", "--dfcc", "harness", "--enforce-contract", task["target"]]
-    for c in task["replace"]:
-        cmd += ["--replace-call-with-contract", c]
-    if task.get("loop_contracts"):
-        cmd += ["--apply-loop-contracts"]
-    rc, out, t2 = _run(cmd + [gb, gb2], 300)
-    if rc != 0:
-        res.update(status="infra", detail="goto-instrument: " + out[-1500:], seconds=t1 + t2)
-        return res
+    if task.get("plain"):
+        # uninstrumented harness: preconditions are assumptions and obligations are assertions written in the harness
+        # (used where the obligation is an iteration bound / a callee precondition and dfcc's instrumentation is too heavy)
+        shutil.copyfile(gb, gb2)
+        t2 = 0.0
+    else:
+        rc, out, t1b = _run(["goto-instrument", "--add-library", gb, gb], 120)
+        if rc != 0:
+            res.update(status="infra", detail="goto-instrument --add-library: " + out[-1500:], seconds=t1)
+            return res
+        t1 += t1b
+        cmd = ["goto-instrument", "--dfcc", "harness", "--enforce-contract", task["target"]]
+        for c in task["replace"]:
+            cmd += ["--replace-call-with-contract", c]
+        if task.get("loop_contracts"):
+            cmd += ["--apply-loop-contracts"]
+        rc, out, t2 = _run(cmd + [gb, gb2], 300)
+        if rc != 0:
+            res.update(status="infra", detail="goto-instrument: " + out[-1500:], seconds=t1 + t2)
+            return res
     cb = ["cbmc", "--bounds-check", "--pointer-check", "--unwind", str(task.get("unwind", 1)), "--unwinding-assertions", "--object-bits", "10",
           "--json-ui", "--trace"] + task.get("cbmc_flags", [])
     if task["backend"] == "cvc5int":
@@ -211,7 +217,7 @@ def verify_one(task):
         res.update(status="infra", detail="cbmc warnings: " + " | ".join(bad_msgs)[:1500])
     elif not canary or canary[0]["status"] == "SUCCESS":
         res.update(status="infra", detail="vacuity canary did not fail: preconditions contradictory or harness unreachable")
-    elif res["n_post"] == 0:
+    elif res["n_post"] == 0 and not task.get("plain"):
         res.update(status="infra", detail="no postcondition obligation generated")
     elif failed:
         res.update(status="failed", detail="; ".join(p["property"] for p in failed[:5]))
